@@ -140,3 +140,23 @@ fn c05_renderer_clock_advance_remainder_chunk() { kv_clock_advance_body(3); }
 #[kani::proof]
 #[kani::unwind(40)]
 fn c05_renderer_clock_advance_short_callback() { kv_clock_advance_body(1); }
+
+// @h prop=C16 tier=quick kind=main timeout=280
+// @bounds Renderer::on_change_sample_rate to 1, 8000, 44100, 48000, 96000 or 192000 Hz (symbolic choice): dt becomes exactly 1/rate, the shared atomic (read by the gameplay thread when it initialises new tracks) holds the new rate
+// @funcs Renderer::{new,on_change_sample_rate}, Mixer::on_change_sample_rate
+// @catches dt left at the old rate (seconds and hertz then mean something else), or the shared rate not updated (tracks created later are initialised with the old rate)
+#[kani::proof]
+#[kani::unwind(4)]
+fn c16_renderer_rate_change_updates_dt_and_shared_rate() {
+	let (mut r, c) = kv_renderer(2, 0);
+	let sel: u8 = kani::any();
+	kani::assume(sel < 6);
+	// (a symbolic divisor would make the oracle a second 53-bit divider: the common device rates are enumerated instead)
+	let (rate, dt): (u32, f64) = match sel { 0 => (1, 1.0), 1 => (8000, 1.0 / 8000.0), 2 => (44100, 1.0 / 44100.0), 3 => (48000, 1.0 / 48000.0), 4 => (96000, 1.0 / 96000.0), _ => (192000, 1.0 / 192000.0) };
+	assert!(r.dt == 0.25);
+	r.on_change_sample_rate(rate);
+	assert!(r.dt == dt, "every process call is handed dt = 1 / (the rate in force)");
+	assert!(r.shared.sample_rate.load(Ordering::SeqCst) == rate, "new tracks are initialised with the rate in force");
+	kani::cover!(rate == 48000, "w:48k");
+	std::mem::forget(r); std::mem::forget(c);
+}
